@@ -8,10 +8,12 @@ Conformance  : every family x span placement x initial dt x call sequence is exe
                (clauses C03.*).
 """
 import random
-from vf import gen, odecore, core
+from vf import modelreplay, gen, odecore, core
 
 LEVEL = "model_checking"
 PREFIX = ("C03.",)
+
+MR_KINDS = ("Rows", "RunTerminates", "Dt", "Status", "CallbackCount", "Raised")
 
 
 def scenarios(tier, seed):
@@ -82,6 +84,9 @@ def check(run, replay=None):
                 "(span/7, span, 3*span, either sign) x call sequence (single, split, reversal, repeated target, random targets), "
                 "plus buffer growth, dtypes, shapes; non-trivial = trace with >= 2 accepted steps in a direction or placement "
                 "other than a plain forward run from 0; distinct by (family, direction, sign pattern, op sequence)")
+    if replay and isinstance(replay.get("scenario"), dict) and "modelreplay" in replay["scenario"]:
+        modelreplay.phase(run, [], "C03", MR_KINDS, replay=replay["scenario"]["modelreplay"])
+        return
     if replay:
         scs = odecore.replay_scenarios(replay)
     else:
@@ -100,6 +105,10 @@ def check(run, replay=None):
     k = min(1, len(scs) - 1)
     run.sample({"scenario": scs[k], "trace_head": traces[k]["events"][:12]})
     odecore.judge_traces(run, scs, traces, PREFIX)
+    if not replay:
+        # spec -> code: behaviours of the design model (no faults; events, callbacks, reversals, resets) replayed on the real code; the
+        # recorded times, the step in force and the status must be the model's at every API return
+        modelreplay.phase(run, ["OdeSystemSim_fixed_nofault"], "C03", MR_KINDS)
     run.assumptions += ["the sensor's interning is exact (fractions.Fraction); ranks preserve order and equality",
                         "'a few rounding units' = UlpFew = 4 ulp of the working dtype (spec/Bounds.tla)",
                         "float16 and the torch backend are not exercised"]
